@@ -197,7 +197,11 @@ Definition fstep (client : list bytes) (s : fstate) (l : flabel) : option fstate
   | FWCaps => match f_w s with WOk1 uris => Some (set_w (set_caps s (Some uris)) (WSet false)) | _ => None end
   | FWErrCb => match f_w s with WErr0 e d => Some (set_w (set_err s (Some e)) (WSet d)) | _ => None end
   | FWEvSet => match f_w s with WSet d => Some (set_w (set_ev s true) (if d then WClosing else WTop)) | _ => None end
-  | FWDie e => match f_w s with WTop => Some (set_w s (WRaised e)) | _ => None end
+  | FWDie e =>
+      match f_w s, e with
+      | WTop, ESessionClose | WTop, EOther => Some (set_w s (WRaised e))
+      | _, _ => None
+      end
   | FWBcast => match f_w s with WRaised e => Some (set_w s (if f_lis s then WErr0 e true else WClosing)) | _ => None end
   | FWClose => match f_w s with WClosing => Some (set_w (set_conn s false) WExiting) | _ => None end
   | FWExit => match f_w s with WExiting => Some (set_w s WDone) | _ => None end
